@@ -252,6 +252,11 @@ fn exec_read(
     let Some(path) = fs.open_handles.get(&fd).cloned() else {
         return -EBADF;
     };
+    // An fd opened without read access: real io_uring (like pread(2))
+    // fails with EBADF; shim::std::fs::File::read_at refuses it too.
+    if fs.no_read_fds.contains(&fd) {
+        return -EBADF;
+    }
 
     // O_DIRECT: enforce ptr/offset/len alignment, mirroring
     // shim::std::fs::File::read_at_internal. Real io_uring on a
@@ -306,6 +311,10 @@ fn exec_write(
     let Some(path) = fs.open_handles.get(&fd).cloned() else {
         return -EBADF;
     };
+    // An fd opened without write access, see exec_read.
+    if fs.no_write_fds.contains(&fd) {
+        return -EBADF;
+    }
 
     // O_DIRECT alignment, see exec_read for the rationale.
     if fs.direct_io_fds.contains(&fd) && !direct_io_aligned(fs, ptr as usize, offset, len) {
